@@ -537,6 +537,20 @@ def undo_alias_spec(R, ast):
   return sorted(out)
 
 
+def alias_prefix_of_own_module(R, ast):
+  """Known finding c12-alias-prefix-of-own-module: a module alias whose name is a proper dotted prefix of the module it
+  stands for (`import foo.bar as foo`) and a LateType below that name: undoing the alias is not idempotent
+  (`foo.X` -> `foo.bar.X` -> `foo.bar.bar.X`), so re-encoding the decoded AST gives other bytes."""
+  p = R.pytd
+  pre = []
+  for a in ast.aliases:
+    if isinstance(a.type, p.Module):
+      n = a.name[len(ast.name) + 1:] if a.name.startswith(ast.name + ".") else a.name
+      if a.type.module_name.startswith(n + "."):
+        pre.append(n)
+  return any(name == q or name.startswith(q + ".") for q in pre for name in late_names(R, ast) if "." in name)
+
+
 def ast_oracle(R, ast):
   """DecodeAst(Serialize(x)).ast == CanonicalOrdering(x) (by value), dependencies as collected, all cls
   pointers cleared, Serialize of the decoded AST byte-identical, canonical ordering idempotent."""
@@ -569,13 +583,16 @@ def ast_oracle(R, ast):
   if any(c.cls is not None for c in collect_class_types(R, d.ast)):
     return "a ClassType.cls pointer survived serialisation"
   try:
-    if pu.Serialize(d.ast) != b:
+    if alias_prefix_of_own_module(R, ast):
+      pass   # characterised known finding (replayed by W): re-encoding is not byte-stable for exactly this shape
+    elif pu.Serialize(d.ast) != b:
       return "Serialize(DecodeAst(Serialize(x)).ast) gives different bytes"
     if pu.Encode(d) != b:
       return "Encode(DecodeAst(bytes)) gives different bytes"
   except Exception as e:  # pylint: disable=broad-except
     return "re-serialising raised %s: %s" % (type(e).__name__, str(e)[:200])
-  if R.msgspec.msgpack.Encoder(order="deterministic").encode(su.SerializeAst(d.ast)) != b:
+  if not alias_prefix_of_own_module(R, ast) and \
+      R.msgspec.msgpack.Encoder(order="deterministic").encode(su.SerializeAst(d.ast)) != b:
     return "bytes differ from the deterministic (sorted) encoding"
   return None
 
@@ -1065,6 +1082,14 @@ def witnesses(res):
           break
   for e in known:
     n += 1
+    if e.get("id") == "c12-alias-prefix-of-own-module":
+      u = p.TypeDeclUnit(name="w", constants=(p.Constant("w.k", p.LateType("foo.Thing"), None),), type_params=(),
+                         classes=(), functions=(), aliases=(p.Alias("w.foo", p.Module("foo", "foo.bar")),))
+      b = R.pickle_utils.Serialize(u)
+      d = R.pickle_utils.DecodeAst(b)
+      if R.pickle_utils.Serialize(d.ast) != b and late_names(R, d.ast) == ["foo.bar.Thing"]:
+        res.known_lines.append(e["what"])
+      continue
     res.known_lines.append(e.get("what", e.get("id", "?")))
   res.cov["witnesses_replayed"] = n
 
